@@ -65,17 +65,28 @@ type storeRec struct {
 	code   int
 	panics bool
 	calls  int
+	// mode 3 only
+	sub     int        // 1: the handler re-dispatches through the Mux with its own s.W; 2: it serves a sub-request with a private recorder
+	lazy    bool       // nobody asks for the id before the handler does (then from three goroutines at once, and through a copy of the Store)
+	mux     *httpd.Mux // for the sub-request
+	changed string     // something this request observes changed while it was being served
 }
 
 type storeCtxKey struct{}
 
 func storeProbe(s *httpd.Store, id int, names []string) *storeObs {
+	return storeProbeID(s, id, names, true)
+}
+
+func storeProbeID(s *httpd.Store, id int, names []string, withID bool) *storeObs {
 	o := &storeObs{id: id, ipath: s.I.Path, imethod: s.I.Method, status: s.W.Status}
 	for _, n := range names {
 		o.gets = append(o.gets, s.RouteParam(n))
 	}
 	o.any = s.RouteParamAny()
-	o.rid = strings.Clone(s.GetID()) // GetID aliases the pooled buffer
+	if withID {
+		o.rid = strings.Clone(s.GetID()) // GetID aliases the pooled buffer
+	}
 	o.ptr = uintptr(unsafe.Pointer(s))
 	o.nV = len(s.P.V)
 	return o
@@ -85,9 +96,50 @@ func storeHandler(id int) httpd.HandlerFunc {
 	return func(s *httpd.Store) {
 		rec := s.R.Context().Value(storeCtxKey{}).(*storeRec)
 		rec.calls++
+		if rec.lazy {
+			// first use of the id: through a by-value copy of the Store and from three goroutines at once -
+			// "the id of the request" is one value whoever asks, however, whenever
+			view := *s
+			got := make([]string, 4)
+			got[0] = strings.Clone(view.GetID())
+			var wg sync.WaitGroup
+			for g := 1; g < 4; g++ {
+				wg.Add(1)
+				go func(g int) { defer wg.Done(); got[g] = strings.Clone(s.GetID()) }(g)
+			}
+			wg.Wait()
+			for g := 1; g < 4; g++ {
+				if got[g] != got[0] {
+					rec.changed = fmt.Sprintf("GetID() of one request gave %q (through a copy of the Store, first use) and %q (goroutine %d)", got[0], got[g], g)
+				}
+			}
+		}
 		rec.handle = storeProbe(s, id, rec.names)
 		if rec.code != 0 {
 			s.W.WriteHeader(rec.code)
+		}
+		if rec.sub != 0 && rec.mux != nil {
+			before := storeProbe(s, id, rec.names)
+			inner := &storeRec{names: rec.names}
+			req := (&http.Request{Method: "GET", URL: &url.URL{Path: "/sub/" + strconv.Itoa(rec.sub) + "/x"}, Header: http.Header{}}).
+				WithContext(context.WithValue(context.Background(), storeCtxKey{}, inner))
+			var w http.ResponseWriter = s.W
+			if rec.sub == 2 {
+				w = httptest.NewRecorder()
+				inner.code = 202
+			}
+			rec.mux.ServeHTTP(w, req)
+			after := storeProbe(s, id, rec.names)
+			if !after.sameModuloID(before) || after.rid != before.rid {
+				rec.changed = fmt.Sprintf("before a nested request through the same Mux the handler observed %v, after it %v", before, after)
+			}
+			if inner.handle == nil || inner.calls != 1 {
+				rec.changed = "the nested request did not run exactly one handler"
+			} else if inner.handle.rid == before.rid {
+				rec.changed = fmt.Sprintf("the nested request has the id of the outer one (%q)", before.rid)
+			} else if rec.sub == 2 && inner.handle.status != 0 {
+				rec.changed = fmt.Sprintf("the nested request (own recorder) started with status %d", inner.handle.status)
+			}
 		}
 		if rec.panics {
 			panic("verif: handler panics on purpose")
@@ -97,7 +149,7 @@ func storeHandler(id int) httpd.HandlerFunc {
 
 func storeRelay(s *httpd.Store) {
 	rec := s.R.Context().Value(storeCtxKey{}).(*storeRec)
-	rec.relay = storeProbe(s, -2, rec.names)
+	rec.relay = storeProbeID(s, -2, rec.names, !rec.lazy)
 	s.I.HandlerFunc(s)
 }
 
@@ -147,13 +199,15 @@ type storeReq struct {
 	Method string `json:"method"`
 	Code   int    `json:"write_status,omitempty"`
 	Panics bool   `json:"handler_panics,omitempty"`
+	Sub    int    `json:"nested_request,omitempty"` // mode 3: 1 = re-dispatch with s.W, 2 = sub-request with its own recorder
+	Lazy   bool   `json:"id_first_asked_in_handler,omitempty"`
 }
 
 var storeReqSeq int
 
 // do serves one request; the panic of a panicking handler is recovered here.
 func (m *storeMux) do(q storeReq, names []string) (rec *storeRec, panicked string) {
-	rec = &storeRec{names: names, code: q.Code, panics: q.Panics}
+	rec = &storeRec{names: names, code: q.Code, panics: q.Panics, sub: q.Sub, lazy: q.Lazy, mux: m.mux}
 	req := (&http.Request{Method: q.Method, URL: &url.URL{Path: q.Path}, Header: http.Header{}}).
 		WithContext(context.WithValue(context.Background(), storeCtxKey{}, rec))
 	// some requests carry the headers proxies and clients commonly add: what a request carries must
@@ -247,8 +301,11 @@ func storeCheck(s *Stream, m *storeMux, q storeReq, rec *storeRec, panicked stri
 		}
 	}
 	// ids: constant within the request, prefix constant within the Mux, unique within the Mux
+	if rec.changed != "" {
+		s.Violate("state-changed-during-request", fmt.Sprintf("%+v: %s", q, rec.changed), replay())
+	}
 	id := rec.handle.rid
-	if rec.relay.rid != id {
+	if rec.relay.rid != id && !q.Lazy {
 		s.Violate("id-not-constant", fmt.Sprintf("%+v: relay saw id %q, handler %q", q, rec.relay.rid, id), replay())
 	}
 	mu.Lock()
@@ -568,7 +625,80 @@ func runStore(cfg Cfg) {
 		}
 		runtime.GC()
 	}
+	// ---- mode 3 (direct oracle only): handlers that serve a nested request through the same Mux (with the
+	// outer request's own writer, or with a private recorder), ids first asked for inside the handler, and
+	// bursts of overlapping requests afterwards
+	nNest := cfg.N(150, 1500)
+	for h := 0; h < nNest; h++ {
+		r := rng.Fork()
+		m := storeNewMux()
+		prefix, ids := "", map[string]bool{}
+		var mu sync.Mutex
+		for _, reg := range Pick(r, storeDirected) {
+			m.register(reg)
+		}
+		for k := r.Intn(3); k > 0; k-- {
+			m.register(storeRandReg(r, 1))
+		}
+		names := append([]string{}, m.names...)
+		var hist []storeReq
+		for i, n := 0, 3+r.Intn(20); i < n; i++ {
+			q := storeRandReq(r, m)
+			q.Panics = false
+			q.Sub, q.Lazy = Pick(r, []int{0, 0, 1, 2}), r.Chance(30)
+			hist = append(hist, q)
+			rec, p := m.do(q, names)
+			hcopy := append([]storeReq{}, hist...)
+			storeCheck(s, m, q, rec, p, &prefix, ids, &mu, func() any {
+				return map[string]any{"mode": "nested requests, one goroutine", "table": m.regs, "requests": hcopy}
+			})
+			s.Evaluations++
+			s.Count(fmt.Sprintf("request.nested-%d", q.Sub))
+		}
+		const G = 4
+		var wg sync.WaitGroup
+		plans := make([][]storeReq, G)
+		type nres struct {
+			rec *storeRec
+			p   string
+		}
+		results := make([][]nres, G)
+		for g := range plans {
+			for i := 0; i < 12; i++ {
+				q := storeRandReq(r, m)
+				q.Panics = false
+				q.Sub, q.Lazy = Pick(r, []int{0, 2, 2, 1}), r.Chance(30)
+				plans[g] = append(plans[g], q)
+			}
+		}
+		for g := 0; g < G; g++ {
+			wg.Add(1)
+			go func(g int) {
+				defer wg.Done()
+				for _, q := range plans[g] {
+					rec, p := m.do(q, names)
+					results[g] = append(results[g], nres{rec, p})
+				}
+			}(g)
+		}
+		wg.Wait()
+		for g := 0; g < G; g++ {
+			for i, q := range plans[g] {
+				q := q
+				storeCheck(s, m, q, results[g][i].rec, results[g][i].p, &prefix, ids, &mu, func() any {
+					return map[string]any{"mode": "nested requests, 4 goroutines after a sequential warm-up", "table": m.regs, "warm_up": hist, "request": q}
+				})
+				s.Evaluations++
+				s.Count("request.nested-concurrent")
+			}
+		}
+		s.Nontrivial(fmt.Sprintf("nested/%d", h))
+		if h%50 == 49 {
+			runtime.GC()
+		}
+	}
 	s.Notes = append(s.Notes,
+		"mode 3 (no model side): handlers serving a nested request through the same Mux - re-dispatch with the outer request's own s.W, or a sub-request with a private recorder -, ids first asked for inside the handler (through a by-value copy of the Store and from three goroutines at once), then 4 goroutines of such requests; oracle: nothing the outer request observes changes while it is served, the nested request has its own id and starts with status 0, every observation equals that on a fresh Mux",
 		"mode 1: one goroutine, GC off (debug.SetGCPercent(-1)); reuse of pooled Stores is measured by pointer identity (distribution: request.on-reused-store / request.on-new-store), never assumed by the oracle; `dropall` = two runtime.GC() calls, after which sync.Pool has forgotten everything",
 		"mode 2: 8 goroutines x 3 bursts on one Mux, registrations between the bursts; `reqx` lines are compared with the model without the id (the order in which the goroutines draw ids is not determined), ids are checked for uniqueness and constant prefix by the direct oracle",
 		"the `req` operation carries an arbitrary pool choice for the model (0 = new Store, k = the k-th pooled Store); the implementation's own choice is not observable — the model's answer must not, and by theorem request_isolated does not, depend on it",
